@@ -25,7 +25,11 @@
 (* TLC replays the log against the value-free machine of StreamShapes      *)
 (* (which Streams.tla proves to be a refinement mapping of its machines):  *)
 (* category, error identity, return value and timestamp of every output    *)
-(* must be the machine's; the twin selected by the reset class, and the    *)
+(* must be the machine's; each value must lie within n/3 + 3 f32 epsilons *)
+(* (n = samples since the last reset) of the textbook formula evaluated in *)
+(* f64 by the recorder over exactly those samples (PID, integral,          *)
+(* derivative, both filters, the three to-state converters; field `num');  *)
+(* the twin selected by the reset class, and the                            *)
 (* skip / shift / scale / variant twins, must show the same keys; the      *)
 (* filters must stay between the smallest and largest contributing sample. *)
 (***************************************************************************)
@@ -100,6 +104,7 @@ Event ==
      /\ (sh2.cat = "err" => r.out.e = sh2.e)                                                     \* the same error, not a stale one
      /\ (sh2.cat = "some" => r.out.t = (IF kind = "Freeze" THEN newFz ELSE newT))                \* stamped with the newest sample's time
      /\ SameOut(r.get2, r.out)                                                                   \* get() is pure
+     /\ \A j \in 1..Len(r.num) : r.num[j].err <= r.num[j].bound                                   \* within rounding of the recorder's f64 reference (textbook formula, exact intervals)
      /\ (best[1] > 0 /\ kind \notin {"F2Q", "Q2F", "Freeze"} =>
             SameOut(IF best[2] = "since_none" THEN r.since_none ELSE IF best[2] = "since_err" THEN r.since_err ELSE r.since_set, r.out))
      /\ ((ShapeIgnoresAbsent(kind) /\ r.ev.c # "none") => SameOut(r.skip, r.out))                \* deleting absent samples changes nothing
